@@ -23,6 +23,13 @@ Out == In \cup {"r", "t", "rb", "tab", "sp"}
 RECURSIVE Strings(_)
 Strings(n) == IF n = 0 THEN {<<>>} ELSE LET S == Strings(n - 1) IN S \cup {Append(s, c) : s \in {t \in S : Len(t) = n - 1}, c \in In}
 
+\* strings crafted against quote handling: a run of 1..4 quote characters, a payload, another run of quote characters
+\* (the payload class "na" stands for text that would be an expression if it ever ended up outside a literal)
+RECURSIVE Run(_, _)
+Run(q, n) == IF n = 0 THEN <<>> ELSE <<q>> \o Run(q, n - 1)
+Attacks == { Run(q1, n1) \o mid \o Run(q2, n2) : q1 \in {"sq", "dq"}, q2 \in {"sq", "dq"}, n1 \in 1..4, n2 \in 0..4,
+                                                mid \in {<<"na">>, <<"bs", "na">>, <<"na", "bs">>, <<"nl", "na">>} }
+
 -----------------------------------------------------------------------------
 \* M : MiniString
 EscShort(c, q) == CASE c = "nl"  -> <<"bs", "n">>
@@ -126,7 +133,7 @@ VARIABLES s, ctx
 vars == <<s, ctx>>
 Ctx == [kind : {"mini"}, q : Quotes, long : BOOLEAN]
        \cup [kind : {"nested"}, allowed : AllowedLists, start : 1..4, pep701 : BOOLEAN, bytes : BOOLEAN]
-Init == /\ s \in Strings(MaxLen)
+Init == /\ s \in Strings(MaxLen) \cup Attacks
         /\ ctx \in Ctx
         /\ (ctx.kind = "nested" => ctx.start <= Len(ctx.allowed))
 Next == UNCHANGED vars
